@@ -27,6 +27,7 @@ local to the object, with the AABB of a NEW collider of the same shape built dir
 All floats travel through JSON (repr round trip = exact).
 """
 import json
+import signal
 import sys
 import traceback
 import warnings
@@ -40,6 +41,14 @@ from distance3d.broad_phase import BoundingVolumeHierarchy
 from distance3d.urdf_utils import self_collision_whitelists
 from pytransform3d.transform_manager import TransformManager
 from pytransform3d.urdf import UrdfTransformManager
+
+
+class CaseTimeout(BaseException):
+    """raised by SIGALRM: one case exceeded its (generous) wall-clock allowance"""
+
+
+def _on_alarm(signum, frame):
+    raise CaseTimeout()
 
 
 def arr44(p):
@@ -190,14 +199,24 @@ class World:
                     ext=[None if d is None else [d[0], self.oid(d[1])] for d in self.bvh.aabbtree_.external_data_list],
                     wl={k: list(v) for k, v in self.bvh.self_collision_whitelists_.items()})
         if with_narrow:
-            n = len(items)
+            # all-pairs narrow phase over the registered colliders (first, in dict order) AND the colliders that only
+            # survive as payload of the tree (a frame name used twice leaves the old object there until the next update)
+            objs = [c for _, c in items]
+            seen = {id(c) for c in objs}
+            for d in self.bvh.aabbtree_.external_data_list:
+                if d is not None and id(d[1]) not in seen:
+                    seen.add(id(d[1]))
+                    objs.append(d[1])
+            ids = [self.oid(c) for c in objs]
+            stamps = [self.stamp(i, c.collider2origin()) if i >= 0 else None for i, c in zip(ids, objs)]
+            n = len(objs)
             nar = [[None] * n for _ in range(n)]
             nar_fresh = [[None] * n for _ in range(n)]
-            fresh = [self.fresh_at(e["oid"], e["stamp_actual"]) if e["oid"] >= 0 else None for e in ent]
+            fresh = [self.fresh_at(i, st) if i >= 0 else None for i, st in zip(ids, stamps)]
             for a in range(n):
                 for b in range(n):
                     try:
-                        nar[a][b] = bool(G.gjk_intersection(items[a][1], items[b][1]))
+                        nar[a][b] = bool(G.gjk_intersection(objs[a], objs[b]))
                     except Exception as ex:  # noqa
                         nar[a][b] = type(ex).__name__
                     try:
@@ -206,6 +225,7 @@ class World:
                         nar_fresh[a][b] = type(ex).__name__
             snap["narrow"] = nar
             snap["narrow_fresh"] = nar_fresh
+            snap["narrow_objs"] = [[i, st] for i, st in zip(ids, stamps)]
         return snap
 
     # -- commands --------------------------------------------------------
@@ -364,11 +384,19 @@ def run_case(case):
 def main():
     payload = json.loads(open(sys.argv[1]).read())
     res = []
-    for case in payload["cases"]:
+    limit = int(payload.get("case_limit_s", 0))
+    signal.signal(signal.SIGALRM, _on_alarm)
+    for k, case in enumerate(payload["cases"]):
+        # the first case of a worker also pays for loading / compiling the numba functions
+        signal.alarm(limit * (4 if k == 0 else 1) if limit else 0)
         try:
             res.append(run_case(case))
+        except CaseTimeout:
+            res.append(dict(harness_exc="CASE-TIMEOUT", harness_msg=f"case exceeded {limit} s inside the worker"))
         except Exception as e:  # noqa
             res.append(dict(harness_exc=type(e).__name__, harness_msg=str(e)[:300], tb=traceback.format_exc()[-800:]))
+        finally:
+            signal.alarm(0)
     open(sys.argv[2], "w").write(json.dumps(dict(results=res), default=lambda o: f"<unserialisable {type(o).__name__}>"))
 
 
